@@ -146,6 +146,9 @@ func (r *Runner) dbDir() string {
 func (r *Runner) mergeDir() string { return filepath.Join(r.Root, "db-merge") }
 
 func (r *Runner) options(c Config, dir string) kv.Options {
+	if r.C.ZeroTail {
+		c.IO = 0
+	}
 	return kv.Options{
 		DirPath:            dir,
 		DataFileSize:       c.FileSize,
